@@ -110,8 +110,12 @@ def longest_prefix(run, bound):
     return 0
 
 
-BYSTANDERS = ["{}", "[]", "[{}]", "null", '"net"', "true", "[1, 2]", "{qq1: 1}", "{qq1: {}, qq2: 2}", "[{qq1: 1}, {qq2: {}}]", "{qq1: {qq2: {}}}",
-              "{qq1: []}", "@\"P1D\"", "[[]]"]
+D = Decimal
+BYSTANDER_VALUES = [("{}", {}), ("[]", []), ("[{}]", [{}]), ("null", None), ('"net"', "net"), ("true", True), ("[1, 2]", [D(1), D(2)]),
+                    ("{qq1: 1}", {"qq1": D(1)}), ("{qq1: {}, qq2: 2}", {"qq1": {}, "qq2": D(2)}),
+                    ("[{qq1: 1}, {qq2: {}}]", [{"qq1": D(1)}, {"qq2": {}}]), ("{qq1: {qq2: {}}}", {"qq1": {"qq2": {}}}),
+                    ("{qq1: []}", {"qq1": []}), ("[[]]", [[]]), ("false", False)]
+BYSTANDERS = [t for t, _ in BYSTANDER_VALUES]
 
 
 class T:
@@ -201,7 +205,7 @@ def gen_case(src):
         values[nf(t)] = primes[i]
     # optionally: first single-word name is bound to a context that has an entry named like another word (a.b vs name `a.b`)
     kind = src.weighted([(3, "alone"), (5, "binop"), (2, "paren"), (2, "if"), (3, "for"), (2, "quant"), (3, "ctx"), (2, "fn"), (2, "args"),
-                         (2, "between"), (2, "in"), (2, "filter-index"), (2, "filter-ctx"), (3, "path-head"), (1, "path-chain"), (2, "call"), (5, "glue-probe")])
+                         (2, "between"), (2, "in"), (2, "filter-index"), (2, "filter-ctx"), (3, "path-head"), (1, "path-chain"), (2, "call"), (5, "glue-probe"), (3, "bound-ctx")])
     tb = T(src, words, names, values)
     extra_bind = []
     # bystanders: further bound names the expression never mentions, holding values of other shapes (empty / nested contexts, lists of
@@ -376,6 +380,38 @@ def gen_case(src):
                 node = ["arith", "+", ["name", nf(cname + ["."] + key)], n1]
                 tb.labels.append("glued")
         tb.uses_family = True
+    elif kind == "bound-ctx":
+        # a bound name holds a context whose entry names are multi-word / symbol names (some of them also bound at the top, to another
+        # value): `order.net pay` is the entry, whatever else is bound
+        cname = tb.local()
+        tb.bound.add(nf(cname))
+        keys = []
+        for _ in range(src.int(1, 3)):
+            k = src.choice(names) if src.bool(0.5) else tb.local()
+            if "." not in k and nf(k) not in [nf(x) for x in keys] and nf(k) != nf(cname):
+                keys.append(k)
+        if not keys:
+            keys = [["zz", "yy"]]
+        vals = [PRIMES[len(names) + 2 + i] for i in range(len(keys))]
+        extra_bind.append([nf(cname), {"c": [[nf(k), {"n": str(v)}] for k, v in zip(keys, vals)]}])
+        key = src.choice(keys)
+        text = spell(src, cname) + src.choice([".", " . ", ". "]) + spell(src, key)
+        node = ["path", ["name", nf(cname)], nf(key)]
+        run = cname + ["."] + key
+        lp = longest_prefix(run, tb.bound)
+        if lp == len(run):
+            node = ["name", nf(run)]            # the dotted spelling is itself a bound name: the longest match is that name
+            tb.labels.append("glued")
+        elif lp != len(cname):
+            tb.labels.append("partial-glue")    # a bound dotted name ends inside the entry name
+            tb.partial = True
+        tb.labels.append("bound-context-entry" + (":also-bound-at-top" if nf(key) in [nf(t) for t in names] else ""))
+        tb.uses_family = tb.uses_family or len(key) > 1
+        if src.bool(0.6):
+            t1, n1 = tb.operand()
+            op = src.choice(["+", "*", "-"])
+            text = "%s %s %s" % (text, op, t1)
+            node = ["arith", op, node, n1]
     else:  # call
         fname = tb.local()
         tb.bound.add(nf(fname))
@@ -398,11 +434,23 @@ def reqs(case):
     return [{"op": "eval", "text": case["text"], "scope": [case["bindings"]]}]
 
 
+def _ref_ctx(w):
+    if isinstance(w, dict) and "c" in w:
+        return {k: _ref_ctx(x) for k, x in w["c"]}
+    if isinstance(w, dict) and "n" in w:
+        return Decimal(w["n"])
+    return None
+
+
 def ref_bindings(case):
     out = {}
     for n, w in case["bindings"]:
         if isinstance(w, dict) and "n" in w:
             out[n] = Decimal(w["n"])
+        elif isinstance(w, dict) and "c" in w:
+            out[n] = _ref_ctx(w)
+        elif isinstance(w, dict) and w.get("feel") in BYSTANDERS:
+            out[n] = dict(BYSTANDER_VALUES)[w["feel"]]
     return out
 
 
